@@ -153,6 +153,19 @@ def lenient_params(s):
     return out
 
 
+def rfc2047(wire):
+    """the framework decodes RFC 2047 encoded words in every request header before any tool sees it
+    (_cprequest.process_headers); the same reading with the standard library, or None"""
+    if b'=?' not in wire:
+        return None
+    from email.header import decode_header
+    try:
+        return ''.join(a.decode(cs or 'latin-1') if isinstance(a, bytes) else a
+                       for a, cs in decode_header(wire.decode('latin-1')))
+    except Exception:
+        return None
+
+
 def py_int(s):
     try:
         return int(s)
@@ -178,6 +191,13 @@ def digest_classify(c, login=None, liberal=True):
         decs.append((d, enc))
         if not liberal:
             break
+    t2047 = rfc2047(wire)
+    if t2047 is not None:
+        decs.append((t2047, 'utf-8'))
+        try:
+            decs.append((t2047.encode('latin-1').decode(cfg['charset']), cfg['charset']))
+        except (UnicodeError, LookupError):
+            pass
     best = 'invalid'
     for text, enc in decs:
         text = text.strip()
@@ -245,13 +265,17 @@ def basic_valid(c, login=None):
         return False
     cfg = c['cfg']
     store = dict((u, p) for u, p in cfg['users'])
-    try:
-        text = wire.decode('latin-1').strip()
-        scheme, sep, params = text.partition(' ')
-        if not sep or scheme.lower() != 'basic':
-            return False
-        raw = base64.b64decode(params.encode('ascii'))
-    except (ValueError, binascii.Error):
+    raw = None
+    for text in (wire.decode('latin-1'), rfc2047(wire)):
+        if text is None or raw is not None:
+            continue
+        try:
+            scheme, sep, params = text.strip().partition(' ')
+            if sep and scheme.lower() == 'basic':
+                raw = base64.b64decode(params.encode('ascii'))
+        except (ValueError, binascii.Error):
+            pass
+    if raw is None:
         return False
     for enc in (cfg['charset'], 'latin-1'):
         try:
@@ -347,9 +371,6 @@ class C19(core.Check):
         'nonce can only be produced with the server key)',
     )
 
-    def corpus(self):
-        return [core.unjson(c) for c in super().corpus()]
-
     # ------------------------------------------------------------------ setup
     def setup(self):
         self.notes += [
@@ -359,13 +380,15 @@ class C19(core.Check):
             'interpretation: stale="true" is required exactly when everything else in the header verifies and the '
             'genuine nonce has expired (RFC 2617 3.2.1); an expired nonce under a wrong response gets a plain 401',
             'interpretation: the property is an only-if; valid credentials that are refused (MD5-sess -> 400, '
-            'auth-int -> 500, Latin-1 hashing client, tolerated-but-odd quoting) are counted (valid-but-refused:*), '
+            'auth-int -> 400, Latin-1 hashing client, tolerated-but-odd quoting) are counted (valid-but-refused:*), '
             'not flagged',
             'interpretation: the realm parameter of the Authorization header and the match of its uri with the '
             'request-target are not compared by the code; the property text does not ask for it; not flagged',
             'interpretation: a realm containing a double quote is treated as an invalid configuration - basic_auth '
             'rejects it with ValueError on every request (500), digest_auth does not and sends realm="in"ner" which '
             'does not re-parse; a backslash in the realm is sent unescaped; both counted, reported to the lead, not flagged',
+            'interpretation: the framework decodes RFC 2047 encoded words in every request header before the tool '
+            'runs; the oracle reads the Authorization value both raw and decoded that way (email.header)',
             'the oracle accepts an admission when the fields some tolerant reader extracts (RFC 7235 reader, or a '
             'split-at-commas-outside-quotes reader) verify under accept_charset, ISO-8859-1 or UTF-8',
         ]
@@ -414,6 +437,9 @@ class C19(core.Check):
                 r = orig_pkl(l)
             except ValueError:
                 rec.parse[-1][1] = 1
+                raise
+            except IndexError:
+                rec.parse[-1][1] = 3
                 raise
             rec.parse[-1][1] = 0
             rec.parse[-1][2] = dict(r)
@@ -893,17 +919,13 @@ class C19(core.Check):
 
     # ------------------------------------------------------------------ property oracle
     def known_5xx_class(self, c, obs):
-        """5xx answers that do not admit anybody; they belong to C07.  Classified from the header alone."""
+        """5xx answers that do not admit anybody and are not the tool's doing.  (qop=auth-int, qop="" and an
+        empty parameter value used to end in 500; since 36a7761, b4a1923, d550473 they are 400 and any 5xx from
+        the digest tool is flagged.)"""
         cfg, w = c['cfg'], c['auth'] or b''
         at = (obs['exc'], obs.get('exc_at'))
         if cfg['mode'] == 'basic':
             return 'basic-realm-with-quote(config)' if '"' in cfg['realm'] and at == ('ValueError', 'basic_auth') else None
-        if at == ('TypeError', 'assert_native') and re.search(rb'qop\s*=\s*"?auth-int', w):
-            return 'digest-qop-auth-int-TypeError'
-        if at == ('ValueError', 'HA2') and re.search(rb'qop\s*=\s*(""|,|$)', w):
-            return 'digest-qop-empty-ValueError'
-        if at == ('IndexError', 'parse_keqv_list') and b'=' in w:
-            return 'digest-empty-value-IndexError(urllib parse_keqv_list)'
         return None
 
     def oracle(self, c, obs):
@@ -941,9 +963,9 @@ class C19(core.Check):
             if cls is None:
                 fails.append(('unexpected-5xx:%s' % mode, 'status %s (%s) for header %r' % (st, obs['exc'], c['auth'])))
             else:
-                self.count('5xx-not-admitting(C07):%s' % cls)
+                self.count('5xx-not-admitting:%s' % cls)
                 if len([n for n in self.notes if cls in n]) < 1:
-                    self.notes.append('5xx from client input, not an admission, belongs to C07: %s; e.g. Authorization: %r'
+                    self.notes.append('5xx, not an admission, a configuration error: %s; e.g. Authorization: %r'
                                       % (cls, c['auth']))
             return fails
         if st != 401:
